@@ -330,3 +330,26 @@ Proof.
     + intros u v Hu Hv. rewrite H4 by auto. reflexivity.
   - assert (E4 : nth 4 leaf_b 0%N = nth 4 (map s p1) 0%N) by (rewrite E; reflexivity). rewrite p1_eq in E4. vm_compute in E4. auto.
 Qed.
+
+(** C18_backend_is_dirty_flags: on the script with an edit behind the hypergraph's back both sides serve the OLD view at the second
+    read; C18_intids_species_renaming: the colliding renaming A -> r_1 of nc (fcol) satisfies the premises *)
+From SK Require Import model.C18_BackendModel proof.C18_Backend proof.C18_BackendFlags proof.C18_IntIdsRen.
+Example ex_dirty_flags : flag_hist n_old [] silent_script = [view true true n_old; view true true n_old] /\
+  flag_hist n_old [] method_script = [view true true n_old; view true true n_new].
+Proof. vm_compute. auto. Qed.
+Example ex_intids_renaming_premises : net_struct nc /\ inj_on fcol (nspecies nc) /\
+  length (vnodes (view true true (rename_species fcol nc))) = 2 /\
+  length (vnodes (view true true (intids_net (rename_species fcol nc)))) = 3.
+Proof.
+  split; [|split; [|vm_compute; auto]].
+  - split; [apply nodup_N; vm_compute; reflexivity|]. split; [apply nodup_N; vm_compute; reflexivity|]. split; [apply closed_n; vm_compute; reflexivity|].
+    intros r [<-|[]]. simpl. split; repeat constructor; simpl; tauto.
+  - intros x y Hx Hy. simpl in Hx, Hy. destruct Hx as [<-|[<-|[]]], Hy as [<-|[<-|[]]]; vm_compute; congruence.
+Qed.
+
+(** C18_wl_estimate_upper: the example has 2 self-maps; its WL cells have sizes 2, 2, 1: the estimate is 2! * 2! * 1! = 4 >= 2, and
+    with cap 3 it is 3 >= min 3 2 *)
+From SK Require Import proof.C18_WLBound.
+Example ex_wl_estimate : length (auts g1) = 2 /\ estimate (map (@length N) (cellsB g1 true true 20)) 1%N CAP0 = 4%N /\
+  estimate (map (@length N) (cellsB g1 true true 20)) 1%N 3%N = 3%N.
+Proof. vm_compute. auto. Qed.
